@@ -305,6 +305,7 @@ fn one_case(rep: &mut Report, model: &mut Model, rng: &mut Rng, case_no: u64, si
     let mut versions: Versions = Vec::new();
     let (n1, fat) = match size {
         "small" => (rng.range(4, 60) as usize, false),
+        "chatty" => (rng.range(80, 160) as usize, false), // many messages: more than the compile window's limit before most anchors
         "fat" => (rng.range(30, 90) as usize, true), // sidecars beyond the first tail window(s)
         _ => (0, false),
     };
@@ -361,7 +362,8 @@ fn one_case(rep: &mut Report, model: &mut Model, rng: &mut Rng, case_no: u64, si
             if kinds.is_empty() {
                 break;
             }
-            let k = rng.pick(&kinds).clone();
+            let sidecars: Vec<String> = kinds.iter().filter(|k| k.ends_with("jsonl") && !k.contains("seek") && !k.contains("idx")).cloned().collect();
+            let k = if !sidecars.is_empty() && rng.chance(1, 2) { rng.pick(&sidecars).clone() } else { rng.pick(&kinds).clone() };
             fs.push(match rng.below(4) {
                 0 => Fault::Delete(k),
                 1 => Fault::Truncate(k, rng.below(1001)),
@@ -543,7 +545,7 @@ fn model_check(rep: &mut Report, model: &mut Model, dir: &Path, thread: &str, q:
 pub fn run(opts: &Opts) -> Report {
     let mut rep = Report::new(
         "C04",
-        "thread histories built through the store API (messages, runs with selection / compiled / side-effect / cursor frames, manual and automatic checkpoints, jobs, branch children): short (4-60 ops), fat (30-90 ops with 20-90 kB messages: sidecars beyond the first and, in some, beyond the largest tail window) and — thorough — long (> 10^4 frames); per history one unfaulted round and three fault rounds of 1-2 faults (delete / truncate at a random byte / garbage / roll back to an earlier saved version) on any cache file of the thread, half of them followed by a restart and further appends; nine read capabilities compared caches-as-found vs caches-removed under a 20 s cap; differences shrunk to a single fault; cursor and selection status also compared with the Lean specification; non-trivial = distinct truth answers",
+        "thread histories built through the store API (messages, runs with selection / compiled / side-effect / cursor frames, manual and automatic checkpoints, jobs, branch children): short (4-60 ops), chatty (80-160 ops: more messages than the compile window's limit), fat (30-90 ops with 20-90 kB messages: sidecars beyond the first and, in some, beyond the largest tail window) and — thorough — long (> 10^4 frames); per history one unfaulted round and three fault rounds of 1-2 faults (delete / truncate at a random byte / garbage / roll back to an earlier saved version) on any cache file of the thread, half of them followed by a restart and further appends; nine read capabilities compared caches-as-found vs caches-removed under a 20 s cap; differences shrunk to a single fault; cursor and selection status also compared with the Lean specification; non-trivial = distinct truth answers",
     );
     let mut rng = Rng::new(opts.seed);
     let mut model = Model::spawn();
@@ -553,6 +555,9 @@ pub fn run(opts: &Opts) -> Report {
     }
     for c in 0..10 * k {
         one_case(&mut rep, &mut model, &mut rng, 10_000 + c, "fat");
+    }
+    for c in 0..16 * k {
+        one_case(&mut rep, &mut model, &mut rng, 15_000 + c, "chatty");
     }
     let longs = if opts.thorough { 3 } else { 1 };
     for c in 0..longs {
